@@ -1108,7 +1108,7 @@ func bPutinterval(intp *Interpreter) error {
 		if !ok {
 			return intp.e(eTypecheck, "putinterval: mismatched argument types")
 		}
-		if int(index)+len(src) > len(dst) {
+		if index > Integer(len(dst)) || len(src) > len(dst)-int(index) {
 			return intp.e(eRangecheck, "putinterval: index out of range")
 		}
 		copy(dst[index:], src)
@@ -1117,7 +1117,7 @@ func bPutinterval(intp *Interpreter) error {
 		if !ok {
 			return intp.e(eTypecheck, "putinterval: mismatched argument types")
 		}
-		if int(index)+len(src) > len(dst) {
+		if index > Integer(len(dst)) || len(src) > len(dst)-int(index) {
 			return intp.e(eRangecheck, "putinterval: index out of range")
 		}
 		copy(dst[index:], src)
